@@ -9,9 +9,17 @@ void *gh_qi0;
 /* every discarded suspend point: coroutine mode => all its handles are appended to the ready queue in order and none runs now;
  * normal mode => each is resumed exactly once, in order, under an installed queue that is drained before returning.
  * Afterwards the suspend point is empty and its heap block (if any) is released exactly once. */
+/* CV_BOUNDED_FALLBACK: the same contracts checked WITHOUT the loop contracts, by unwinding, for points of at most CV_BOUND_N handles.
+ * The loop invariants below name the range-for temporaries of the current text; a rewrite of a loop makes them unusable (the unit
+ * becomes undecided), and then these bounded siblings still decide the contract on small points - with a concrete counterexample. */
+#ifdef CV_BOUNDED_FALLBACK
+#define SN_BOUND(this_) (CNT(this_) <= CV_BOUND_N)
+#else
+#define SN_BOUND(this_) 1
+#endif
 #define SN_CONTRACT(this_) \
 __CPROVER_requires(Q_PRE && (QI == 0 ==> dq_head == dq_tail)) \
-__CPROVER_requires(__CPROVER_is_fresh(this_, sizeof(*this_)) && WF_FRESH(this_)) \
+__CPROVER_requires(__CPROVER_is_fresh(this_, sizeof(*this_)) && SN_BOUND(this_) && WF_FRESH(this_)) \
 __CPROVER_requires(gh_cf == this_->_count_flag && gh_t0 == dq_tail && gh_h0 == dq_head && gh_r0 == gh_n_resume && gh_qi0 == (void *)QI) \
 __CPROVER_requires((gh_DK >= dq_tail && gh_DK - dq_tail < CNT(this_)) ==> (gh_Hq == H(this_, gh_DK - dq_tail) && gh_Hq != 0)) \
 __CPROVER_requires((gh_RK >= gh_n_resume && gh_RK - gh_n_resume < CNT(this_)) ==> (gh_Hr == H(this_, gh_RK - gh_n_resume) && gh_Hr != 0)) \
@@ -37,6 +45,7 @@ __CPROVER_ensures((gh_qi0 == 0 && gh_RK >= gh_r0 && gh_RK - gh_r0 < (gh_cf >> 1)
   cv_exc_pending == 0 && *TLS_GUARD == 1 && DQ_INV && thisp->_count_flag == SN_CF && \
   (HEAP(thisp) ==> (EXTP(thisp)->_capacity >= CNT(thisp) && __CPROVER_r_ok(EXTP(thisp)->_handles, EXTP(thisp)->_capacity * sizeof(void *))))
 
+#ifndef CV_BOUNDED_FALLBACK
 /* loop 0 of suspend_now: coroutine mode, push every handle */
 #define CV_LOOP_sp_suspend_now_0 \
   __CPROVER_assigns(CV_LOOP_LOCALS_sp_suspend_now_0, MODEL_ASSIGNS, *TLS_GUARD) \
@@ -53,6 +62,7 @@ __CPROVER_ensures((gh_qi0 == 0 && gh_RK >= gh_r0 && gh_RK - gh_r0 < (gh_cf >> 1)
   __CPROVER_loop_invariant(gh_n_resume == gh_r0 + (cv_i64)(__begin4 - SN_BASE(this->this)))  \
   __CPROVER_loop_invariant((gh_RK >= gh_r0 && gh_RK < gh_n_resume) ==> gh_res_trk == gh_Hr)
 
+#endif
 #ifdef CV_HAS_sp_suspend_now
 void sp_suspend_now(SP *this_) SN_CONTRACT(this_);
 #endif
@@ -87,6 +97,7 @@ cv_i8 *gh_Hlast; cv_i8 *gh_I[3];
 #define AS_CFP ((gh_cf >> 1) > 0 ? gh_cf - 2 : gh_cf)                            /* count word after pop() */
 #define AS_IDX(thisp, beg) ((cv_i64)(beg - SN_BASE(thisp)))
 #define AS_SOME_EQ(n, h) (((n) > 0 && gh_I[0] == (h)) || ((n) > 1 && gh_I[1] == (h)) || ((n) > 2 && gh_I[2] == (h)))
+#ifndef CV_BOUNDED_FALLBACK
 #define CV_LOOP_sp_await_suspend_0 \
   __CPROVER_assigns(CV_LOOP_LOCALS_sp_await_suspend_0, MODEL_ASSIGNS, *TLS_GUARD) \
   __CPROVER_loop_invariant(SN_LOOP_COMMON(this1, __begin3, __end3) && QI == QIMPL && me_included <= 1) \
@@ -94,10 +105,12 @@ cv_i8 *gh_Hlast; cv_i8 *gh_I[3];
   __CPROVER_loop_invariant((gh_DK >= gh_t0 && gh_DK < dq_tail) ==> dq_trk == gh_Hq) \
   __CPROVER_loop_invariant(gh_DK < gh_t0 ==> dq_trk == __CPROVER_loop_entry(dq_trk)) \
   __CPROVER_loop_invariant((gh_G < AS_IDX(this1, __begin3) && gh_oldH == me_addr) ==> me_included == 1) \
-  __CPROVER_loop_invariant((me_included == 1 && !HEAP(this1)) ==> AS_SOME_EQ(AS_IDX(this1, __begin3), me_addr))
+  __CPROVER_loop_invariant(((gh_cf >> 1) > 0 && gh_Hlast == me_addr) ==> me_included == 1) \
+  __CPROVER_loop_invariant((me_included == 1 && !HEAP(this1)) ==> (AS_SOME_EQ(AS_IDX(this1, __begin3), me_addr) || ((gh_cf >> 1) > 0 && gh_Hlast == me_addr)))
+#endif
 cv_i8 *sp_await_suspend(SP *this_, cv_i8 *h)
-__CPROVER_requires(Q_PRE && QI != 0 && h != 0)
-__CPROVER_requires(__CPROVER_is_fresh(this_, sizeof(*this_)) && WF_FRESH(this_))
+__CPROVER_requires(Q_PRE && QI != 0 && h != 0 && h != (cv_i8 *)NOOPH)   /* the awaiting coroutine is a real one, not the noop coroutine */
+__CPROVER_requires(__CPROVER_is_fresh(this_, sizeof(*this_)) && SN_BOUND(this_) && WF_FRESH(this_))
 __CPROVER_requires(gh_cf == this_->_count_flag && gh_t0 == dq_tail && gh_h0 == dq_head && gh_r0 == gh_n_resume)
 __CPROVER_requires(CNT(this_) > 0 ==> gh_Hlast == H(this_, CNT(this_) - 1))
 __CPROVER_requires((gh_DK >= dq_tail && gh_DK - dq_tail < AS_M) ==> (gh_Hq == H(this_, gh_DK - dq_tail) && gh_Hq != 0))
@@ -114,7 +127,8 @@ __CPROVER_ensures((gh_DK >= gh_t0 && (cv_i64)(gh_DK - gh_t0) < AS_M) ==> dq_trk 
 __CPROVER_ensures(gh_DK < gh_t0 ==> dq_trk == __CPROVER_old(dq_trk))
 __CPROVER_ensures(dq_tail == gh_t0 + AS_M || dq_tail == gh_t0 + AS_M + 1)
 __CPROVER_ensures((dq_tail == gh_t0 + AS_M + 1 && gh_DK == gh_t0 + AS_M) ==> dq_trk == h)     /* awaiting coroutine appended last */
-__CPROVER_ensures(((cv_i64)gh_G < AS_M && gh_oldH == h) ==> dq_tail == gh_t0 + AS_M)          /* ... but never twice */
-__CPROVER_ensures((dq_tail == gh_t0 + AS_M && !(gh_cf & 1)) ==> AS_SOME_EQ(AS_M, h))          /* ... and never lost (inline representation) */
+__CPROVER_ensures(((cv_i64)gh_G < AS_M && gh_oldH == h) ==> dq_tail == gh_t0 + AS_M)          /* ... but never twice: not when it is among the queued handles */
+__CPROVER_ensures(((gh_cf >> 1) > 0 && gh_Hlast == h) ==> dq_tail == gh_t0 + AS_M)            /* ... and not when it is itself the transfer target (it continues at once) */
+__CPROVER_ensures((dq_tail == gh_t0 + AS_M && !(gh_cf & 1)) ==> (AS_SOME_EQ(AS_M, h) || ((gh_cf >> 1) > 0 && gh_Hlast == h)))   /* ... and never lost (inline representation) */
 ;
 #endif
